@@ -67,6 +67,9 @@ pub struct PoolStats {
   /// a running worker went to sleep inside the system under test (it waits for a lock that a
   /// parked worker holds): the controller took the baton back and ran somebody else
   pub blocked_workers: u64,
+  /// a worker preempted at a quantum expiry was kept off the processor for a long stretch of
+  /// decisions (a stalled thread: what a loaded machine does to a preempted worker)
+  pub stalls: u64,
 }
 
 pub struct PoolConfig {
@@ -264,6 +267,23 @@ fn next_quantum(state: &mut PoolState) -> i64 {
   };
   state.log.push(q);
   if q == u32::MAX { i64::MAX } else { q as i64 }
+}
+
+/// After a quantum expiry: for how many decisions the preempted worker stays off the processor
+/// (0 almost always). Part of the decision log.
+fn next_stall(state: &mut PoolState) -> u64 {
+  let v = match &mut state.schedule {
+    Schedule::Fixed { decisions, pos } => {
+      let d = decisions.get(*pos).copied().unwrap_or(0);
+      *pos += 1;
+      d
+    }
+    Schedule::Seeded { rng, .. } => {
+      if rng.below(40) == 0 { 1 + rng.below(3000) as u32 } else { 0 }
+    }
+  };
+  state.log.push(v);
+  v as u64
 }
 
 fn decide(state: &mut PoolState, n_options: usize, prefer: Option<usize>, prios: Option<&[u64]>) -> usize {
@@ -486,14 +506,19 @@ pub fn run_region<R: Send>(n: usize, job: &(dyn Fn(usize) -> R + Sync)) -> Vec<R
     // controller
     let mut unstarted: Vec<usize> = (0..n).collect();
     let mut last_ran: Option<usize> = None;
+    let mut stalled_until: Vec<u64> = vec![0; w_eff];
     let budget = (n as u64) * 10_000 + 4_000_000;
     loop {
       let mut g = shared.inner.lock().unwrap();
       while g.running.is_some() {
         g = shared.ctrl_cv.wait(g).unwrap();
       }
-      let parked: Vec<usize> = (0..w_eff).filter(|k| g.status[*k] == WStatus::Parked).collect();
+      let all_parked: Vec<usize> = (0..w_eff).filter(|k| g.status[*k] == WStatus::Parked).collect();
       let idle: Vec<usize> = (0..w_eff).filter(|k| g.status[*k] == WStatus::Idle).collect();
+      // stalled workers are not offered, unless nothing else can run
+      let awake: Vec<usize> = all_parked.iter().copied().filter(|k| stalled_until[*k] <= region_decisions).collect();
+      let parked: Vec<usize> =
+        if awake.is_empty() && (unstarted.is_empty() || idle.is_empty()) { all_parked } else { awake };
       let inflight = (w_eff - idle.len()) as u64;
       let can_start = !unstarted.is_empty() && !idle.is_empty();
       if parked.is_empty() && !can_start {
@@ -640,6 +665,11 @@ pub fn run_region<R: Send>(n: usize, job: &(dyn Fn(usize) -> R + Sync)) -> Vec<R
           s.stats.yields += 1;
           if by_quantum {
             s.stats.quantum_expiries += 1;
+            let stall = next_stall(s);
+            if stall > 0 {
+              s.stats.stalls += 1;
+              stalled_until[target] = region_decisions + stall;
+            }
           }
         });
       }
